@@ -16,12 +16,13 @@
    redraws of the same canvas object, clear() with arbitrary terminal contents and size changes.
    Partial display mode (no alternate buffer; display origin = terminal row 0, lines below blank, as many
    terminal rows as canvas rows): any history of draws, clear() and frames abandoned by a mid-draw SIGWINCH.
-   NOT proved (statement kept below, decided by correspondence + oracle only): zero-width and C0 control
-   characters in the canvas text; partial display with a display origin below row 0 and size changes in
+   Zero-width (combining) characters are covered except as the first character of a run.  REFUTED
+   (statement kept): runs starting with a combining character, C0 control characters; partial display with a display origin below row 0 and size changes in
    partial display mode (oracle only). *)
-From Coq Require Import ZArith List Bool.
+From Coq Require Import ZArith List Bool Lia ZifyBool.
 Import ListNotations.
-From Urwid Require Import PyBase TermRef DrawScreen HtmlGen PaintSpec TermRefFacts DrawScreenProofs DrawPartialProofs HtmlGenProofs.
+From Urwid Require Import PyBase TermRef DrawScreen HtmlGen PaintSpec TermRefFacts DrawScreenProofs DrawPartialProofs
+  DrawTextProofs HtmlGenProofs.
 Open Scope Z_scope.
 
 (* --- the SGR parameter list urwid sends for an AttrSpec means, to the terminal, exactly the visual
@@ -32,6 +33,25 @@ Theorem sgr_means_visual_attribute :
   forall bib bbb s v, spec_ok s -> apply_sgr (spec_to_sgr bib bbb s) v = visual bib bbb s.
 Proof. exact sgr_roundtrip. Qed.
 Print Assumptions sgr_means_visual_attribute.
+
+(* the colour part of [visual], spelled out for every colour kind _attrspec_to_escape handles: true colour
+   (38;2;r;g;b / 48;2;r;g;b), high colour of the 88- and 256-colour modes (38;5;n / 48;5;n), the 16 basic
+   colours (30-37, 90-97 or bold + 30-37; 40-47, 100-107 or blink + 40-47) and the default (39 / 49);
+   [spec_ok] restricts nothing but the basic colour numbers to 0..15 *)
+Theorem visual_colours :
+  forall bib bbb s,
+    a_fg (visual bib bbb s) =
+      (if s_fgk s =? 3 then CRgb (s_fr s) (s_fg s) (s_fb s)
+       else if s_fgk s =? 2 then CHigh (s_fgn s)
+       else if s_fgk s =? 1 then (if (7 <? s_fgn s) && bib then CBasic (s_fgn s - 8) else CBasic (s_fgn s))
+       else CDef) /\
+    a_bg (visual bib bbb s) =
+      (if s_bgk s =? 3 then CRgb (s_br s) (s_bg s) (s_bb s)
+       else if s_bgk s =? 2 then CHigh (s_bgn s)
+       else if s_bgk s =? 1 then (if (7 <? s_bgn s) && bbb then CBasic (s_bgn s - 8) else CBasic (s_bgn s))
+       else CDef).
+Proof. exact visual_colours_lemma. Qed.
+Print Assumptions visual_colours.
 
 (* --- one frame, from ANY state in which the Screen object and the terminal agree (whatever was drawn
        before, so whichever rows are skipped): the tokens of draw_screen make the terminal show the
@@ -149,27 +169,25 @@ Theorem partial_clear_keeps_sync : forall c s t, SyncP c s t -> SyncP c (clear s
 Proof. exact syncp_clear. Qed.
 Print Assumptions partial_clear_keeps_sync.
 
-(* --- NOT PROVED, decided by the correspondence and the oracle only: the statement of draw_paints for
-       canvases that also contain zero-width (combining) characters and C0 control characters (painted
-       as '?'), i.e. for every decodable text --- *)
-Definition chr_any (utf8 : bool) (ch : chr) : Prop :=
-  0 <= fst ch /\ (snd ch = 1 \/ (utf8 = true /\ (snd ch = 0 \/ snd ch = 2))) /\ (fst ch = 32 -> snd ch = 1).
-Definition canvas_any (c : cfg) (cols rows : Z) (content : list crow) : Prop :=
-  zlen content = rows /\
-  Forall (fun row : crow =>
-            Forall (fun r : crun => let '(a, cs, text) := r in
-                      Forall (chr_any (g_utf8 c)) text /\ (if g_utf8 c then cs = 0 else cs = 0 \/ cs = 1)) row
-            /\ row_width (map (fun r : crun => let '(a, cs, text) := r in (a, cs, map trans_chr text)) row) = cols)
-         content.
-Definition draw_paints_any_text_full : Prop :=
-  forall c s t cols rows content cursor,
-    cfg_ok c -> Sync c s t -> t_cols t = cols -> t_rows t = rows ->
-    canvas_any c cols rows content -> cursor_ok cols rows cursor ->
-    exists toks s',
-      draw_screen c s cols rows content cursor false false = Ok (toks, s') /\
-      Paints c (run t toks)
-             (map (map (fun r : crun => let '(a, cs, text) := r in (a, cs, map trans_chr text))) content) cursor /\
-      Sync c s' (run t toks).
+(* --- combining (zero-width) characters.  The reference terminal joins a zero-width character to the
+       character before the cursor (the last one written when the cursor is in the pending-wrap state) and
+       does not advance; with nothing before the cursor on the line it is dropped.  The canvases of all
+       theorems above ([canvas_ok]) may contain zero-width characters anywhere except as the first
+       character of a run; on these canvases the row spec [row_cells] (concatenation of the runs) is the
+       general one in which combining characters are threaded across runs: --- *)
+Theorem row_cells_is_threaded :
+  forall c cols row, row_ok c cols row -> row_cells_threaded c row = row_cells c row.
+Proof. exact row_cells_threaded_eq_lemma. Qed.
+Print Assumptions row_cells_is_threaded.
+
+(* --- REFUTED of the code as it is: draw_paints for ANY text (runs that start with a combining character,
+       C0 control characters).  Witness: on the bottom row _last_row slides in a run that holds only a
+       combining character and the mark is lost (corpus/C04, known finding
+       C04-bottom-row-run-starting-with-combining-character).  C0 control characters are measured as
+       zero columns by str_util and painted as '?' (one column) under UTF-8: reported separately. --- *)
+Theorem draw_paints_any_text_refuted : ~ draw_paints_any_text_full.
+Proof. exact any_text_refuted_lemma. Qed.
+Print Assumptions draw_paints_any_text_refuted.
 
 (* --- non-vacuity --- *)
 Definition ex_cfg : cfg :=
@@ -179,7 +197,7 @@ Definition ex_cfg : cfg :=
          (2, default_spec)].                                                        (* an undefined name *)
 (* a 4x2 canvas: wide character, attribute change, trailing blanks, bottom row needing the insert trick *)
 Definition ex_canvas : list crow :=
-  [ [(1, 0, [(19990, 2); (97, 1)]); (0, 0, [(32, 1)])];
+  [ [(1, 0, [(19990, 2); (97, 1); (769, 0)]); (0, 0, [(32, 1)])];
     [(2, 0, [(120, 1); (121, 1)]); (1, 0, [(19990, 2)])] ].
 
 Example ex_cfg_ok : cfg_ok ex_cfg.
@@ -192,8 +210,8 @@ Proof. apply sync_start. repeat split; cbn; try reflexivity; try discriminate; r
 Example ex_canvas_ok : canvas_ok ex_cfg 4 2 ex_canvas.
 Proof.
   unfold canvas_ok, row_ok, run_ok, chr_ok, ex_canvas. cbn.
-  repeat first [apply Forall_nil | apply Forall_cons | split | discriminate | reflexivity | (left; reflexivity)
-               | (right; split; reflexivity) | (intros; discriminate) | (intros; reflexivity) | (cbv; discriminate) ].
+  repeat first [apply Forall_nil | apply Forall_cons | split | discriminate | reflexivity | lia | exact I
+               | (left; reflexivity) | (right; split; [reflexivity|]; first [left; reflexivity | right; reflexivity])].
 Qed.
 
 (* the model computes something non-trivial: SGR with bright colour, EL shortcut, CUP, the insert trick *)
@@ -201,7 +219,7 @@ Example ex_tokens :
   match draw_screen ex_cfg (init_scr false) 4 2 ex_canvas (Some (1, 1)) false false with
   | Ok (toks, s') =>
       toks = [TG1; THide; TSgr [0; 39; 49]; THome; TCup 1 1;
-              TSgr [0; 91; 1; 4; 48; 5; 17]; TCh 19990 2; TCh 97 1; TSgr [0; 39; 49]; TEl;
+              TSgr [0; 91; 1; 4; 48; 5; 17]; TCh 19990 2; TCh 97 1; TCh 769 0; TSgr [0; 39; 49]; TEl;
               TCup 2 1; TSgr [0; 39; 49]; TCh 120 1; TSgr [0; 91; 1; 4; 48; 5; 17]; TCh 19990 2;
               TBs; TBs; TSgr [0; 39; 49]; TIrmOn; TCh 121 1; TIrmOff;
               TCup 2 2; TShow]
